@@ -654,7 +654,7 @@ func byzProposer(r *core.Run) {
 			l := snapshot(rn.e)
 			if l.AdvProposer && rn.e.V.CS.GetRoundState().Proposal == nil {
 				rn.describe()
-				if rn.ByzSession(l, rg, c.I*7+done) {
+				if rn.ByzSession(l, rg, (c.I+done)%7+7*(c.I/7*5+done)) {
 					done++
 				}
 			}
